@@ -427,9 +427,13 @@ func c17RunOverride(b core.Batch, r *core.Recorder) {
 			r.Violation("C17", "C17:file-unreadable-after-updates", fmt.Sprint(ferr), cs, string(fileRaw))
 			continue
 		}
+		defaults := cfgWalk(config.NewDefault())
 		for prop, ov := range overridden {
 			base, updated := lastBase[prop]
 			fv := fileVals[prop]
+			if !updated && fmt.Sprint(defaults[prop]) == fmt.Sprint(ov) {
+				continue // the override happens to equal the base value the file holds anyway
+			}
 			// what the file should hold: the updated base value if an update addressed it, else the default
 			if updated && num(base) == fmt.Sprint(ov) {
 				continue // the update itself set the same value
